@@ -96,7 +96,12 @@ class World:
         got = (r.returncode, r.stdout, r.stderr, file_state(out), file_state(dwo) and file_state(dwo)[0])
         side_got = self._side(); self._clear_side()
         ran = loglines(self.log) - nlog
-        after = counts(self.sc.stats() or {})
+        after_raw = self.sc.stats()
+        if after_raw is None:
+            # the server no longer answers a statistics request (it died, or every request now fails inside it): not a hit, not a miss
+            self.fails.append({'kind': 'server_stopped_answering', 'detail': f'after [{note}] the server does not answer --show-stats any more', 'ops': list(self.trace) + [f'{note}: {" ".join(argv[1:])}']})
+            after = dict(before)
+        else: after = counts(after_raw)
         for p_ in (out, dwo):
             try: os.remove(p_)
             except OSError: pass
@@ -306,7 +311,9 @@ def run_readonly(root, tag, compiler, seed, n_hist, n_req, oversize=False, damag
                 if note == 'restart': w.trace.append('(restart keeps the read-only environment)')
                 # in read-only mode nothing new is ever stored: only what was populated can hit
                 fp = w.fingerprint(); known = fp in w.seen
-                w.request(note, expect_cacheable=(known and not recache and not oversize and not damaged))
+                # (variant file_env_dir: by F-C15-b the file's section — preprocessor-cache options included — is dropped in the second phase; with the
+                #  mode flipped the preprocessed text has other line markers and the populated entries are not found: no hit is expected there)
+                w.request(note, expect_cacheable=(known and not recache and not oversize and not damaged and conf != 'file_env_dir'))
                 if not known: w.seen.pop(fp, None)
             w.sc.stop()
             after = listing(w.sc.cache)
@@ -731,3 +738,56 @@ def run_special_outputs(root, tag, compiler):
     finally:
         sc.stop(); shutil.rmtree(d, ignore_errors=True)
     return {'requests': reqs, 'fails': fails, 'samples': [' ; '.join(trace)[:600]]}
+
+
+# ------------------------------------------------------------------------------------------------ an entry that cannot be evicted
+def run_evict_undeletable(root, tag, compiler):
+    """a tiny size limit, and the oldest entry replaced by a non-empty directory behind the server's back: when the server wants to evict it the removal
+    fails.  Every later request must still be answered like a direct compile and the server must keep answering (statistics included)."""
+    d = os.path.join(root, 'evict'); shutil.rmtree(d, ignore_errors=True); w = os.path.join(d, 'w'); os.makedirs(w)
+    body = lambda i: f'int f{i}(int n) {{ int s = 0; for (int k = 0; k < n; k++) s += k * {i + 3}; return s; }}\n'
+    sc = Sc(os.path.join(d, 'sc'), tag, env={'SCCACHE_CACHE_SIZE': '3K', 'SCCACHE_DIRECT': 'false'}); sc.start(); fails = []; trace = []; reqs = 0
+    try:
+        def req(i, note):
+            nonlocal reqs
+            open(os.path.join(w, f's{i}.c'), 'w').write(body(i)); out = os.path.join(w, f's{i}.o')
+            r = sc.compile([compiler, '-O1', '-c', f's{i}.c', '-o', f's{i}.o'], w); reqs += 1
+            got = (r.returncode, file_state(out) and file_state(out)[0])
+            dr = subprocess.run([compiler, '-O1', '-c', f's{i}.c', '-o', f'd{i}.o'], cwd=w, capture_output=True); want = (dr.returncode, file_state(os.path.join(w, f'd{i}.o'))[0])
+            st_ok = sc.stats() is not None
+            trace.append(f'{note}: s{i}.c -> rc={got[0]}, statistics answered: {st_ok}')
+            if got != want: fails.append({'kind': 'differs_from_direct', 'detail': f'entry that cannot be evicted: [{note}] gave rc={got[0]}, the direct compile rc={want[0]} (objects equal: {got[1] == want[1]}); stderr {r.stderr[:150]!r}', 'ops': list(trace)})
+            elif not st_ok: fails.append({'kind': 'server_stopped_answering', 'detail': f'entry that cannot be evicted: after [{note}] the server does not answer --show-stats any more', 'ops': list(trace)})
+            return not fails
+        req(0, 'first entry')
+        entries = [os.path.join(dp, f) for dp, dn, fn in os.walk(sc.cache) for f in fn if len(f) == 64]
+        for e in entries:
+            os.remove(e); os.makedirs(os.path.join(e, 'sub')); open(os.path.join(e, 'sub', 'x'), 'w').write('x')
+        trace.append(f'{len(entries)} result entr(y/ies) replaced by a non-empty directory')
+        for i in range(1, 12):
+            if not req(i, f'compile {i} (the size limit forces evictions)'): break
+    finally:
+        sc.stop(); shutil.rmtree(d, ignore_errors=True)
+    return {'requests': reqs, 'entries_made_undeletable': len(entries), 'fails': fails[:2], 'samples': [' ; '.join(trace)[:500]]}
+
+
+# ------------------------------------------------------------------------------------------------ options whose place on the command line matters
+def run_option_order(root, tag, compiler):
+    """`-x LANG` names the language of the input files that follow it; after the input it has no effect (the compilers warn).  F-C01-r."""
+    d = os.path.join(root, 'order'); shutil.rmtree(d, ignore_errors=True); w = os.path.join(d, 'w'); os.makedirs(w)
+    open(os.path.join(w, 'main.c'), 'w').write('int class = 1;\nint f(void) { return class; }\n')       # C, not C++
+    sc = Sc(os.path.join(d, 'sc'), tag); sc.start(); fails = []; trace = []; reqs = 0
+    try:
+        for name, argv in (('x_after_input', [compiler, '-c', 'main.c', '-x', 'c++', '-o', 'out.o']), ('x_before_input', [compiler, '-x', 'c', '-c', 'main.c', '-o', 'out.o'])):
+            for i in range(2):
+                out = os.path.join(w, 'out.o')
+                if os.path.exists(out): os.remove(out)
+                r = sc.compile(argv, w); got = (r.returncode, file_state(out) and file_state(out)[0]); reqs += 1
+                if os.path.exists(out): os.remove(out)
+                dr = subprocess.run(argv, cwd=w, capture_output=True); want = (dr.returncode, file_state(out) and file_state(out)[0])
+                trace.append(f'{name} #{i}: {" ".join(argv[1:])} -> rc={got[0]} (direct rc={want[0]})')
+                if got != want:
+                    fails.append({'kind': 'differs_from_direct', 'detail': f'option order {name}: exit status / object differ from the direct compile (wrapped rc={got[0]}, direct rc={want[0]})', 'ops': list(trace)}); break
+    finally:
+        sc.stop(); shutil.rmtree(d, ignore_errors=True)
+    return {'requests': reqs, 'fails': fails, 'samples': [' ; '.join(trace)[:400]]}
